@@ -70,6 +70,30 @@ type docLeaf struct {
 }
 
 // genProofDoc builds a proof document of a seeded shape with a distinct random value at every leaf.
+
+// randHash is a hash value below r: mostly uniform (76-77 decimal digits, what a Poseidon digest looks like), but also every magnitude a decimal
+// string can have on its way to an integer - machine-word and float boundaries, powers of ten (a reader with a fast path for short strings),
+// and uniform values of a random decimal length.
+func randHash(rng *rand.Rand) *big.Int {
+	switch rng.Intn(8) {
+	case 0:
+		p2 := func(k uint) *big.Int { return new(big.Int).Lsh(one, k) }
+		p10 := func(k int64) *big.Int { return new(big.Int).Exp(big.NewInt(10), big.NewInt(k), nil) }
+		base := []*big.Int{big.NewInt(1), p2(31), p2(32), p2(53), p2(63), p2(64), p2(64), p2(64), p10(19), p10(20), p10(20), p2(127), p2(128), p2(192), p2(253)}[rng.Intn(15)]
+		return new(big.Int).Add(base, big.NewInt(int64(rng.Intn(3)-1)))
+	case 1:
+		digits := 1 + rng.Intn(76)
+		lo := new(big.Int).Exp(big.NewInt(10), big.NewInt(int64(digits-1)), nil)
+		return new(big.Int).Add(lo, drv.RandBelow(rng, new(big.Int).Mul(lo, big.NewInt(9))))
+	case 2:
+		// twenty decimal digits: the band between 2^64 and 10^20 exists only there
+		lo := new(big.Int).Lsh(one, 64)
+		hi := new(big.Int).Exp(big.NewInt(10), big.NewInt(20), nil)
+		return new(big.Int).Add(lo, drv.RandBelow(rng, new(big.Int).Sub(hi, lo)))
+	}
+	return drv.RandBelow(rng, bigR)
+}
+
 func genProofDoc(rng *rand.Rand) (map[string]any, []docLeaf) {
 	var leaves []docLeaf
 	u64 := func(path string) any {
@@ -90,7 +114,7 @@ func genProofDoc(rng *rand.Rand) (map[string]any, []docLeaf) {
 		return json.Number(new(big.Int).SetUint64(v).String())
 	}
 	hash := func(path string) any {
-		v := drv.RandBelow(rng, bigR)
+		v := randHash(rng)
 		if rng.Intn(12) == 0 {
 			v = new(big.Int).Sub(bigR, one)
 		}
@@ -433,11 +457,11 @@ func c19(raw json.RawMessage, resp *drv.Response) error {
 		caps := make([]any, n)
 		want := map[string]string{}
 		for i := range caps {
-			v := drv.RandBelow(rng, bigR)
+			v := randHash(rng)
 			caps[i] = v.String()
 			want[fmt.Sprintf("ConstantSigmasCap[%d]", i)] = v.String()
 		}
-		dg := drv.RandBelow(rng, bigR)
+		dg := randHash(rng)
 		want["CircuitDigest"] = dg.String()
 		writeJSON(vdPath, map[string]any{"constants_sigmas_cap": caps, "circuit_digest": dg.String()})
 		vd, refused := readVD(vdPath)
@@ -461,14 +485,14 @@ func c19(raw json.RawMessage, resp *drv.Response) error {
 		mk := func() ([]any, []string) {
 			caps, ss := make([]any, 16), make([]string, 16)
 			for i := range caps {
-				ss[i] = drv.RandBelow(rng, bigR).String()
+				ss[i] = randHash(rng).String()
 				caps[i] = ss[i]
 			}
 			return caps, ss
 		}
 		capsA, _ := mk()
 		capsB, sB := mk()
-		dgA, dgB := drv.RandBelow(rng, bigR).String(), drv.RandBelow(rng, bigR).String()
+		dgA, dgB := randHash(rng).String(), randHash(rng).String()
 		type kd struct {
 			caps []any
 			want []string
@@ -486,7 +510,7 @@ func c19(raw json.RawMessage, resp *drv.Response) error {
 			one16 := append([]any{}, capsA...)
 			w := append([]string{}, sA...)
 			j := rng.Intn(16)
-			w[j] = drv.RandBelow(rng, bigR).String()
+			w[j] = randHash(rng).String()
 			one16[j] = w[j]
 			seq = []kd{{capsA, sA, dgA}, {one16, w, dgA}}
 		}
